@@ -300,4 +300,25 @@ PROPS = {
         technique="Coq proof (verdict resolution) + stop injection at interface-event indexes with termination oracles",
         assumptions=["bounds: 4 s for an immediate stop, 12 s for a graceful one"],
     ),
+    "C19": dict(
+        coq="Properties/C19.v",
+        suites=[dict(name="conf", pkg=".", test="TestVerifConf", min_lines=1000)],
+        rule=("conf: seeded documents generated from the schema: 1..3 sources each with threads / min-age / compress / poll-attempts / out-dir / target "
+              "(key, quic-enable-datagrams, http3-port) / stat-payload / include-hidden / error-backoff / include / ignore and 0..3 tags (priority, order, "
+              "chunk-size, last-delay, delete), every option omitted / explicitly zero-or-false / given; rendered as YAML or JSON (50/50), parsed by the real "
+              "ClientConf unmarshalling, then json.Marshal'ed and parsed again (as main/controlled.go does); effective values of every source and tag before and "
+              "after re-encoding are compared with the model; 2/3 of the documents avoid what the language cannot express (finding domain in the rest); "
+              "non-trivial = at least two sources; distinct = distinct input lines"),
+        level_text=("Proof: omitted options inherit the predecessor's (the default tag's) value, given values are never overridden, an explicit false is kept for "
+                    "the options that carry a marker (stat-payload, error-backoff, delete), re-encoding is a fixed point of the effective configuration when "
+                    "'%f' preserves error-backoff, and a file gets the first pattern tag matching its group; refuted with witnesses (known findings) for options "
+                    "without a marker (include-hidden false, explicit zero of plain options, target booleans), the empty-include quirk and the 7th decimal of "
+                    "error-backoff. Tied to the real unmarshalling / marshalling / propagate code by differential runs over generated YAML and JSON documents."),
+        level_note=("Trusted: Coq kernel (no axioms), extraction, harness. Modelled by hand: ClientConf.propagate, reflectutil.CopyStruct/IsZero (0 = zero value), "
+                    "SourceConf/TagConf applyAux + MarshalJSON markers, tagger/grouper. YAML/JSON lexing, regexp, units/duration parsing are library code. The "
+                    "wiring of tags into the running sender (main/client.go init) is stated as the first-match theorem; exercising init() itself is left to the "
+                    "thorough tier (not built)."),
+        technique="Coq proof (field-wise inheritance, marker semantics, re-encode fixpoint, first-match tagger) + differential testing of the real conf code",
+        assumptions=["an option whose value is the type's zero value is 'omitted' unless it carries an is-set marker (stated in the theorems)"],
+    ),
 }
